@@ -305,6 +305,12 @@ func (ctx *EvalCtx) ident(name string) CV {
 					return CV{ctx.ex.load(ctx.st, ctx.frame.val(cell), pt), pt}
 				}
 			}
+			// ... or, when it is only reassigned, in the phi nodes go/ssa names after it
+			if isParam(ctx.frame.fn, name) {
+				if cv, ok := ctx.frame.phiByName(name, ctx.block); ok {
+					return cv
+				}
+			}
 		}
 		return v
 	}
@@ -333,6 +339,24 @@ func (ctx *EvalCtx) ident(name string) CV {
 	// path to this edge has no value here: it reads as an arbitrary value of its type (the clause must
 	// not depend on it on such an edge, e.g. by guarding it with the branch condition)
 	if ctx.frame != nil && ctx.prevState != nil {
+		// assigned on only some paths of this iteration: the value it got on those paths (the symbolic
+		// execution keeps it; it is meaningful only under the branch condition, which the clause has to
+		// state). The innermost (latest declared) variable of that name wins.
+		var best *ssa.DebugRef
+		for _, d := range ctx.frame.debug[name] {
+			if _, isVar := d.Object().(*types.Var); !isVar || d.IsAddr {
+				continue
+			}
+			if _, ok := ctx.frame.env[d.X]; !ok {
+				continue
+			}
+			if best == nil || d.Object().Pos() > best.Object().Pos() || (d.Object().Pos() == best.Object().Pos() && d.Pos() > best.Pos()) {
+				best = d
+			}
+		}
+		if best != nil {
+			return CV{ctx.frame.val(best.X), best.X.Type()}
+		}
 		for _, d := range ctx.frame.debug[name] {
 			if v, isVar := d.Object().(*types.Var); isVar {
 				return CV{ctx.ex.freshOf(ctx.st, "unassigned."+name, v.Type()), v.Type()}
@@ -385,6 +409,21 @@ func (ctx *EvalCtx) constCV(o *types.Const) CV {
 
 // localByName finds the SSA value of a named local variable visible at block b.
 func (fr *Frame) localByName(st *State, name string, b *ssa.BasicBlock) (CV, bool) {
+	// a loop-carried variable is the phi node of the block itself (go/ssa names phis after the variable);
+	// no debug reference points at it when the variable is only read further inside the loop
+	if b != nil {
+		for _, in := range b.Instrs {
+			p, ok := in.(*ssa.Phi)
+			if !ok {
+				break
+			}
+			if p.Comment == name {
+				if _, ok := fr.env[p]; ok {
+					return CV{fr.val(p), p.Type()}, true
+				}
+			}
+		}
+	}
 	refs := fr.debug[name]
 	if len(refs) == 0 {
 		return CV{}, false
